@@ -6,3 +6,4 @@ bool c08_arg_ok(int id, size_t i, const std::string& tok, int64_t v);
 Args c08_decode(Ctx&, Dec& d);
 int64_t entry_key(int id);
 int entry_from_key(int64_t k);
+bool ce_map(const std::string& clause, const Args& a, int& id, int64_t& x, int64_t& y, int64_t& z);
